@@ -120,10 +120,14 @@ def solve_milp(
             best_obj = sum(c[j] * ws[j] for j in range(n))
             best_solution = ws
             all_solutions.append(ws)
+            if _verif.ENABLED:  # pragma: no cover
+                _verif.emit("milp_incumbent", src="warm", x=list(ws), obj=best_obj)
 
     frac_var = _most_fractional(root_result.solution, int_set, eps)
 
     if frac_var is None:
+        if _verif.ENABLED:  # pragma: no cover
+            _verif.emit("milp_root_integral", x=list(root_result.solution), obj=root_result.objective)
         return Result(root_result.solution, root_result.objective, 1, total_iters)
 
     # Check if LP relaxation suggests binary (values in [0,1])
@@ -144,6 +148,8 @@ def solve_milp(
             best_obj = sum(c[j] * rounded[j] for j in range(n))
             best_solution = rounded
             all_solutions.append(rounded)
+            if _verif.ENABLED:  # pragma: no cover
+                _verif.emit("milp_incumbent", src="round", x=list(rounded), obj=best_obj)
 
     # LNS improvement for binary problems
     if heuristics and looks_binary and lns_iterations > 0 and best_solution is not None:
@@ -158,6 +164,8 @@ def solve_milp(
                 best_solution, best_obj = improved, improved_obj
                 if improved not in all_solutions:
                     all_solutions.append(improved)
+                if _verif.ENABLED:  # pragma: no cover
+                    _verif.emit("milp_incumbent", src="lns", x=list(improved), obj=best_obj)
 
     tree: list[tuple[float, int, Node]] = []
     counter = 0
@@ -165,12 +173,16 @@ def solve_milp(
     heappush(tree, (root_bound, counter, Node(root_bound, tuple(lower), tuple(upper), 0)))
     counter += 1
     nodes_explored = 0
+    if _verif.ENABLED:  # pragma: no cover
+        _verif.emit("milp_open_root", lower=list(lower), upper=list(upper), bound=root_bound)
 
     while tree and nodes_explored < max_nodes:
         node_bound, _, node = heappop(tree)
 
         # Prune if can't improve
         if best_solution is not None and node_bound >= sign * best_obj - eps:
+            if _verif.ENABLED:  # pragma: no cover
+                _verif.emit("milp_node", act="prune_bound", lower=list(node.lower), upper=list(node.upper), bound=node_bound)
             continue
 
         result = _solve_node(c, A, b, node.lower, node.upper, minimize, eps, max_iter)
@@ -178,9 +190,21 @@ def solve_milp(
         nodes_explored += 1
 
         if result.status != LPStatus.OPTIMAL:
+            if _verif.ENABLED:  # pragma: no cover
+                _verif.emit(
+                    "milp_node", act="lp_" + result.status.name.lower(), lower=list(node.lower), upper=list(node.upper)
+                )
             continue
 
         if best_solution is not None and sign * result.objective >= sign * best_obj - eps:
+            if _verif.ENABLED:  # pragma: no cover
+                _verif.emit(
+                    "milp_node",
+                    act="prune_lp",
+                    lower=list(node.lower),
+                    upper=list(node.upper),
+                    bound=sign * result.objective,
+                )
             continue
 
         frac_var = _most_fractional(result.solution, int_set, eps)
@@ -189,6 +213,10 @@ def solve_milp(
             # Found an integer-feasible solution
             sol = tuple(result.solution)
             sol_obj = result.objective
+            if _verif.ENABLED:  # pragma: no cover
+                _verif.emit(
+                    "milp_node", act="integral", lower=list(node.lower), upper=list(node.upper), x=list(sol), obj=sol_obj
+                )
 
             # Collect solution if within limit
             if solution_limit > 1 and sol not in all_solutions:
@@ -225,6 +253,18 @@ def solve_milp(
             tree, (child_bound, counter, Node(child_bound, tuple(lower_right), tuple(upper_right), node.depth + 1))
         )
         counter += 1
+        if _verif.ENABLED:  # pragma: no cover
+            _verif.emit(
+                "milp_node",
+                act="branch",
+                lower=list(node.lower),
+                upper=list(node.upper),
+                var=frac_var,
+                val=val,
+                left_upper=upper_left,
+                right_lower=lower_right,
+                bound=child_bound,
+            )
 
     if best_solution is None:
         return Result(None, float("inf") if minimize else float("-inf"), nodes_explored, total_iters, Status.INFEASIBLE)
